@@ -23,7 +23,7 @@ var messageStateMap = []string{
 }
 
 func (m MessageState) String() string {
-	if int(m) > len(messageStateMap) {
+	if int(m) >= len(messageStateMap) {
 		return strconv.Itoa(int(m))
 	}
 	return strings.ToUpper(messageStateMap[m])
